@@ -17,7 +17,8 @@ _m(
         "tolerance 16 ulp of the working dtype at 1.0 for range/monotonicity (libm log/pow/asinh are not guaranteed monotone "
         "to the last bit); 1e-9 absolute for stretch round-trips",
         "data magnitudes are bounded (1e30 float32, 1e150 float64) so vmax - vmin cannot overflow: overflow of the span is "
-        "outside the claimed domain",
+        "outside the claimed domain; likewise limit spans below 4x the smallest normal number of the working precision (subnormal "
+        "divisor) are skipped and counted under excluded_by_construction",
     ],
     workers=(1, 16),
     technique="property-based testing (Hypothesis): range/monotonicity/limit laws and inverse round-trips over generated arrays x interval x stretch configurations, float64 limit oracle",
